@@ -35,6 +35,7 @@ class OnionWorld:
         self.ident_map = {}     # (kind, node, real) -> spec ident
         self.n_ident = 0
         self.raw_log = []       # on_raw_data observations at originators
+        self.adv_keys = []      # session keys the attacker could derive from its own handshake material
         self.orig_cid = {}      # datagram seq -> circuit id it carried before the attacker rewrote it
         self.escaped = []       # exceptions that escaped the receive path during a delivery
         self.keys = {}          # every session key that ever existed in a table (for measuring layer depth)
@@ -565,6 +566,7 @@ class OnionWorld:
             crypto = TunnelCrypto()
             crypto.initialize(self.adv.my_peer.key)
             _shared, key, auth = crypto.generate_diffie_shared_secret(create)
+            self.adv_keys.append(crypto.generate_session_keys(_shared))
         elif how == "auth":
             auth = bytes([auth[0] ^ 1]) + auth[1:]
         elif how == "cands":
